@@ -72,6 +72,9 @@ func c04(c *ctx) {
 				w.assoc(a)
 			}
 		}
+		if k < 2 {
+			w.tunnelNamedWhileBuffering([]string{"del", "release"}[k])
+		}
 		w.p4history(steps)
 		if k%2 == 0 {
 			// the agent is killed at this point of the history and restarted against the same switch
@@ -85,6 +88,49 @@ func c04(c *ctx) {
 			w.p4history(steps / 3)
 		}
 		w.close()
+	}
+}
+
+// tunnelNamedWhileBuffering: session A buffers its downlink; its FAR is given gNB X's tunnel (still buffering) while
+// session B forwards to X; B leaves; A is then deleted (end "del") or its association released (end "release").
+// A must stay modifiable and deletable, and nothing of it may remain afterwards.
+func (w *world) tunnelNamedWhileBuffering(end string) {
+	mk := func(buffer bool) ([]sysh.PdrIE, []sysh.FarIE) {
+		ue, teid := w.nextUE, w.nextTEID
+		w.nextUE++
+		w.nextTEID += 3
+		pdrs := []sysh.PdrIE{{ID: 1, Prec: 100, Src: u8p(0), Teid: u32p3(0, teid, n3IP), UE: u32p2(2, ue), Ohr: u8p(0), Far: 1},
+			{ID: 2, Prec: 100, Src: u8p(1), UE: u32p2(2, ue), Far: 2}}
+		fars := []sysh.FarIE{{ID: 1, Act: 2, Fwd: &sysh.FwdIE{Dst: u8p(1)}}, {ID: 2, Act: 2, Fwd: &sysh.FwdIE{Dst: u8p(0), Ohc: u32p2(teid+1, 0xC6120109)}}}
+		if buffer {
+			fars[1] = sysh.FarIE{ID: 2, Act: 0x0C}
+		}
+		return pdrs, fars
+	}
+	pa, fa := mk(true)
+	w.nextCP++
+	A, _ := w.est(0, w.nodes[0], w.nextCP, pa, fa, nil, "buffering")
+	pb, fb := mk(false)
+	w.nextCP++
+	B, _ := w.est(0, w.nodes[0], w.nextCP, pb, fb, nil, "forwarding-to-X")
+	if A == nil || B == nil {
+		return
+	}
+	g := sysh.FarIE{ID: 2, Act: 0x0C, Fwd: &sysh.FwdIE{Dst: u8p(0), Ohc: u32p2(80100, 0xC6120109)}}
+	if w.mod(0, A.up, modReq{uf: []sysh.FarIE{g}}, "tunnel-named-while-buffering").Cause == 1 {
+		A.fars[1] = g
+	}
+	if w.del(0, B.up, "last-forwarding-user-of-X").Cause == 1 {
+		B.dead = true
+	}
+	if end == "del" {
+		if w.del(0, A.up, "buffering-session-naming-X").Cause == 1 {
+			A.dead = true
+		}
+	} else {
+		w.release(0)
+		A.dead = true
+		w.assoc(0)
 	}
 }
 
